@@ -268,3 +268,160 @@ Fixpoint scan_items (file : bytes) (its : list item) (ln : N) : N + cerr :=
   | [] => inl ln
   | i :: r => match scan_item file i ln with inl ln' => scan_items file r ln' | inr e => inr e end
   end.
+
+(* ---------------------------------------------------------------------------------------------- what a file says *)
+(* the layout-free content of an item tree: decoration, blank lines and include boundaries removed *)
+Inductive sitem : Type :=
+| SKv (key : bytes) (v : value)
+| SSec (k : skind) (body : list sitem).
+
+Fixpoint skeleton_item (it : item) : list sitem :=
+  match it with
+  | IKv _ key _ _ v => [SKv key v]
+  | ISec _ k _ _ body _ => [SSec k (flat_map skeleton_item body)]
+  | IInc _ _ _ _ body _ => flat_map skeleton_item body
+  | IBlank _ => []
+  | IRaw _ => []
+  end.
+Definition skeleton (its : list item) : list sitem := flat_map skeleton_item its.
+
+Fixpoint snode (s : sitem) : node :=
+  match s with
+  | SKv k v => node_of_value k v
+  | SSec k body => sec_node k (map snode body)
+  end.
+
+(* the value given to `key` directly in a section body; if it is given several times the last one counts *)
+Fixpoint kv_last (key : bytes) (ss : list sitem) : option value :=
+  match ss with
+  | [] => None
+  | s :: r =>
+    match kv_last key r with
+    | Some v => Some v
+    | None => match s with SKv k v => if beq k key then Some v else None | SSec _ _ => None end
+    end
+  end.
+
+(* the bodies of all plain sections called `name`, in file order *)
+Definition sub_bodies (name : bytes) (ss : list sitem) : list sitem :=
+  flat_map (fun s => match s with SSec (KPlain n) body => if beq n name then body else [] | _ => [] end) ss.
+
+Definition str_val (o : option value) : option bytes := match o with Some (VStr s) => Some s | _ => None end.
+Definition num_val (o : option value) : option N :=
+  match o with Some (VInt n) => Some n | Some (VSize n u) => Some (size_value n u) | _ => None end.
+Definition bool_val (o : option value) : option bool := match o with Some (VBool b) => Some b | _ => None end.
+Definition or_default {A} (o : option A) (d : A) : A := match o with Some a => a | None => d end.
+
+Definition k_file : bytes := [102; 105; 108; 101].
+Definition k_directory : bytes := [100; 105; 114; 101; 99; 116; 111; 114; 121].
+Definition k_redirect : bytes := [114; 101; 100; 105; 114; 101; 99; 116].
+
+(* the routes a `route` section describes: one per comma-separated pattern, all with the same target.
+   The target is the file, directory, proxy (target list, load balancer mode) or redirect entry; a route with only a
+   websocket entry proxies WebSocket connections. *)
+Definition denote_route (pats : bytes) (rbody : list sitem) : list route_cfg :=
+  let ws := str_val (kv_last rkey_websocket rbody) in
+  let mk (ty : N) (path : option bytes) (lb : option (list bytes * N)) : list route_cfg :=
+    map (fun p => {| rt_type := ty; rt_matches := p; rt_path := path; rt_lb := lb; rt_ws := ws |})
+        (map trim (split_on COMMA pats)) in
+  match str_val (kv_last k_file rbody), str_val (kv_last k_directory rbody), str_val (kv_last rkey_proxy rbody),
+        str_val (kv_last k_redirect rbody) with
+  | Some p, _, _, _ => mk RT_File (Some p) None
+  | None, Some p, _, _ => mk RT_Directory (Some p) None
+  | None, None, Some t, _ =>
+    mk RT_Proxy None
+       (Some (split_on COMMA t,
+              or_default (assoc_b (or_default (str_val (kv_last rkey_lb_mode rbody)) default_lb_mode) lb_mode_table) 0))
+  | None, None, None, Some p => mk RT_Redirect (Some p) None
+  | None, None, None, None => mk RT_ExclusiveWebSocket None None
+  end.
+
+Definition denote_routes (ss : list sitem) : list route_cfg :=
+  flat_map (fun s => match s with SSec (KRoute pats) rbody => denote_route pats rbody | _ => [] end) ss.
+
+Definition denote_hosts (ss : list sitem) : list host_cfg :=
+  flat_map (fun s => match s with
+                     | SSec (KHost name _) body => [{| hc_matches := name; hc_routes := denote_routes body |}]
+                     | _ => []
+                     end) ss.
+
+Definition k_address : bytes := [97; 100; 100; 114; 101; 115; 115].
+Definition k_port : bytes := [112; 111; 114; 116].
+Definition k_threads : bytes := [116; 104; 114; 101; 97; 100; 115].
+Definition k_timeout : bytes := [116; 105; 109; 101; 111; 117; 116].
+Definition k_websocket : bytes := [119; 101; 98; 115; 111; 99; 107; 101; 116].
+Definition k_blacklist : bytes := [98; 108; 97; 99; 107; 108; 105; 115; 116].
+Definition k_mode : bytes := [109; 111; 100; 101].
+Definition k_log : bytes := [108; 111; 103].
+Definition k_level : bytes := [108; 101; 118; 101; 108].
+Definition k_console : bytes := [99; 111; 110; 115; 111; 108; 101].
+Definition k_cache : bytes := [99; 97; 99; 104; 101].
+Definition k_size : bytes := [115; 105; 122; 101].
+Definition k_time : bytes := [116; 105; 109; 101].
+
+(* The configuration the body `ss` of the server section describes. bl = the addresses in the blacklist file (loading
+   that file is left to the model's load_blacklist; see wf_conf). Every omitted key is at its default (TablesConfig). *)
+Definition denote (bl : list bytes) (ss : list sitem) : config :=
+  let timeout := or_default (num_val (kv_last k_timeout ss)) default_timeout in
+  {| cf_address := or_default (str_val (kv_last k_address ss)) default_address;
+     cf_port := or_default (num_val (kv_last k_port ss)) default_port;
+     cf_threads := or_default (num_val (kv_last k_threads ss)) default_threads;
+     cf_websocket := str_val (kv_last k_websocket ss);
+     cf_timeout := if 0 <? timeout then Some timeout else None;
+     cf_bl_list := bl;
+     cf_bl_mode := or_default (assoc_b (or_default (str_val (kv_last k_mode (sub_bodies k_blacklist ss))) default_blacklist_mode)
+                                       blacklist_mode_table) 0;
+     cf_log_level := or_default (match str_val (kv_last k_level (sub_bodies k_log ss)) with
+                                 | Some l => parse_log_level l | None => None end) default_log_level;
+     cf_log_console := or_default (bool_val (kv_last k_console (sub_bodies k_log ss))) default_log_console;
+     cf_log_file := str_val (kv_last k_file (sub_bodies k_log ss));
+     cf_cache_size := or_default (num_val (kv_last k_size (sub_bodies k_cache ss))) default_cache_size;
+     cf_cache_time := or_default (num_val (kv_last k_time (sub_bodies k_cache ss))) default_cache_time;
+     cf_default_host := {| hc_matches := default_host_matches; hc_routes := denote_routes ss |};
+     cf_hosts := denote_hosts ss |}.
+
+(* ---- validity of what is said (the validation rules of Config::from_tree, as conditions on the description) ---- *)
+Definition dotfree (k : bytes) : Prop := ~ In 46 k.
+Definition is_str (o : option value) : Prop := match o with Some (VStr _) | None => True | _ => False end.
+Definition is_num_le (max : N) (o : option value) : Prop :=
+  match o with Some (VInt n) => n <= max | Some (VSize n u) => size_value n u <= max | None => True | _ => False end.
+Definition is_int_le (max : N) (o : option value) : Prop := match o with Some (VInt n) => n <= max | None => True | _ => False end.
+Definition is_bool (o : option value) : Prop := match o with Some (VBool _) | None => True | _ => False end.
+
+Fixpoint wf_sitem (s : sitem) : Prop :=
+  match s with
+  | SKv k v => wf_value v
+  | SSec _ body => fold_right (fun i P => wf_sitem i /\ P) True body
+  end.
+
+(* a route section: entries only, string-valued targets, exactly the documented combinations *)
+Definition wf_route (rbody : list sitem) : Prop :=
+  Forall (fun s => match s with SKv _ _ => True | SSec _ _ => False end) rbody /\
+  is_str (kv_last k_file rbody) /\ is_str (kv_last k_directory rbody) /\ is_str (kv_last rkey_proxy rbody) /\
+  is_str (kv_last k_redirect rbody) /\ is_str (kv_last rkey_websocket rbody) /\ is_str (kv_last rkey_lb_mode rbody) /\
+  (* a target or a websocket entry *)
+  (kv_last k_file rbody <> None \/ kv_last k_directory rbody <> None \/ kv_last rkey_proxy rbody <> None \/
+   kv_last k_redirect rbody <> None \/ kv_last rkey_websocket rbody <> None) /\
+  (* a valid load balancer mode wherever the route is a proxy route *)
+  (kv_last k_file rbody = None -> kv_last k_directory rbody = None -> kv_last rkey_proxy rbody <> None ->
+   assoc_b (or_default (str_val (kv_last rkey_lb_mode rbody)) default_lb_mode) lb_mode_table <> None).
+
+Definition wf_routes (ss : list sitem) : Prop :=
+  Forall (fun s => match s with SSec (KRoute _) rbody => wf_route rbody | _ => True end) ss.
+
+Definition wf_conf (ipp : bytes -> option bytes) (files : bytes -> fentry) (bl : list bytes) (ss : list sitem) : Prop :=
+  (* keys and section names at the top level contain no dot (documented names have none) *)
+  Forall (fun s => match s with SKv k _ => dotfree k | SSec (KPlain n) _ => dotfree n | _ => True end) ss /\
+  is_str (kv_last k_address ss) /\ is_int_le 65535 (kv_last k_port ss) /\
+  is_int_le usize_max (kv_last k_threads ss) /\ or_default (num_val (kv_last k_threads ss)) default_threads >= min_threads /\
+  is_int_le usize_max (kv_last k_timeout ss) /\ is_str (kv_last k_websocket ss) /\
+  is_str (kv_last k_file (sub_bodies k_blacklist ss)) /\
+  load_blacklist ipp files (str_val (kv_last k_file (sub_bodies k_blacklist ss))) = ROk bl /\
+  is_str (kv_last k_mode (sub_bodies k_blacklist ss)) /\
+  assoc_b (or_default (str_val (kv_last k_mode (sub_bodies k_blacklist ss))) default_blacklist_mode) blacklist_mode_table <> None /\
+  is_str (kv_last k_level (sub_bodies k_log ss)) /\
+  (forall l, str_val (kv_last k_level (sub_bodies k_log ss)) = Some l -> parse_log_level l <> None) /\
+  is_bool (kv_last k_console (sub_bodies k_log ss)) /\ is_str (kv_last k_file (sub_bodies k_log ss)) /\
+  is_num_le usize_max (kv_last k_size (sub_bodies k_cache ss)) /\ is_int_le usize_max (kv_last k_time (sub_bodies k_cache ss)) /\
+  wf_routes ss /\
+  Forall (fun s => match s with SSec (KHost _ _) body => wf_routes body | _ => True end) ss.
